@@ -517,6 +517,8 @@ def _plain(v):
         return int(v) if v.denominator == 1 else float(v)
     if isinstance(v, str) and v.startswith('err:'):
         return Err(v[4:])
+    if isinstance(v, str) and v in ('true', 'false'):
+        return v == 'true'
     return v if isinstance(v, (int, float)) else str(v)
 
 
